@@ -26,6 +26,8 @@ TNext ==
      \/ Ev.ev = "stmt" /\ PStmt(Ev.op, Ev.dryst, Ev.norst, Ev.dry, Ev.nor, Ev.wprior)
      \/ Ev.ev = "script" /\ PScript(Ev.dry, Ev.nor, Ev.solodry, Ev.solonor, Ev.owrites, Ev.dryafter, Ev.norafter)
 TSpec == TInit /\ [][TNext]_<<pvars, l>>
+\* C19_trace_all.cfg: do not stop at the first rejected event, print every one (always TRUE)
+Rejects == bad = "" \/ PrintT(<<"REJECT", l - 1, bad>>)
 HW == TLCSet(1, IF TLCGet(1) > l THEN TLCGet(1) ELSE l)
 Accepted == PrintT(<<"HIGHWATER", TLCGet(1), Len(Log)>>)
 ASSUME TLCSet(1, 0)
